@@ -135,6 +135,12 @@ class Inliner:
         if d.qualname in self.known:
             return False
         if d.kind == "nested":
+            # a closure of a helper that is itself looked through is judged where it lands
+            p = d.parent
+            while p is not None:
+                if p.qualname not in self.known and (p.kind == "nested" or p.node.name.startswith("_")) and not (p.node.name.startswith("__") and p.node.name.endswith("__")):
+                    return False
+                p = p.parent
             return True
         if name.startswith("__") and name.endswith("__"):
             return False
@@ -203,7 +209,21 @@ class Inliner:
         if d.done or d in stack:
             return
         d.done = True
-        d.node.body = self.block(d.node.body, d, stack + [d], tail=True)
+        for _ in range(3):
+            n0 = len(self.expanded)
+            d.node.body = self.block(d.node.body, d, stack + [d], tail=True)
+            if len(self.expanded) == n0:
+                break
+            # closures that arrived with an expanded helper now belong to this function:
+            # they are looked through or kept according to their name HERE
+            self._adopt_nested(d)
+
+    def _adopt_nested(self, d: _Def):
+        for sub in _defs_in(d.node.body):
+            if isinstance(sub, (ast.FunctionDef, ast.AsyncFunctionDef)) and id(sub) not in self.defs:
+                nd = _Def(sub, d.qualname + ".<locals>." + sub.name, d.cls, d, "nested")
+                self.defs[id(sub)] = nd
+                self._adopt_nested(nd)
 
     # ------------------------------------------------------------ blocks
     def block(self, stmts: List[ast.stmt], ctx: _Def, stack, tail=False) -> List[ast.stmt]:
@@ -1277,3 +1297,80 @@ def renumber(tree: ast.Module):
             s.end_lineno = counter[0]
 
     visit_block(tree.body)
+
+
+# ---------------------------------------------------------------- default, then conditional override
+def _pure_default(v: ast.AST) -> bool:
+    if isinstance(v, (ast.Constant, ast.Name)):
+        return True
+    if isinstance(v, (ast.List, ast.Tuple, ast.Set)):
+        return all(_pure_default(e) for e in v.elts)
+    if isinstance(v, ast.Dict):
+        return all(k is not None and _pure_default(k) and _pure_default(x) for k, x in zip(v.keys, v.values))
+    if isinstance(v, ast.Attribute):
+        return _pure_default(v.value)
+    if isinstance(v, ast.UnaryOp):
+        return _pure_default(v.operand)
+    return False
+
+
+class DefaultThenOverride(ast.NodeTransformer):
+    """`x = A` immediately followed by `if c: ... x = B ...` (no else) is read as
+    `if c: ... x = B ... else: x = A` when A is a constant/name/display, x does
+    not occur in c and the branch binds x before reading it"""
+
+    def __init__(self):
+        self.count = 0
+
+    def _block(self, stmts):
+        out = []
+        i = 0
+        while i < len(stmts):
+            s = stmts[i]
+            nxt = stmts[i + 1] if i + 1 < len(stmts) else None
+            if (
+                isinstance(s, ast.Assign)
+                and len(s.targets) == 1
+                and isinstance(s.targets[0], ast.Name)
+                and _pure_default(s.value)
+                and isinstance(nxt, ast.If)
+                and not nxt.orelse
+            ):
+                x = s.targets[0].id
+                in_test = any(isinstance(n, ast.Name) and n.id == x for n in ast.walk(nxt.test))
+                in_value = any(isinstance(n, ast.Name) and n.id == x for n in ast.walk(s.value))
+                binds = [k for k, b in enumerate(nxt.body) if isinstance(b, ast.Assign) and any(isinstance(t, ast.Name) and t.id == x for t in b.targets)]
+                reads_before = False
+                if binds:
+                    for b in nxt.body[: binds[0]]:
+                        if any(isinstance(n, ast.Name) and n.id == x for n in ast.walk(b)):
+                            reads_before = True
+                    fb = nxt.body[binds[0]]
+                    if any(isinstance(n, ast.Name) and n.id == x and isinstance(n.ctx, ast.Load) for n in ast.walk(fb.value)):
+                        reads_before = True
+                if binds and not in_test and not in_value and not reads_before:
+                    new = ast.If(test=nxt.test, body=nxt.body, orelse=[s])
+                    ast.copy_location(new, nxt)
+                    out.append(new)
+                    self.count += 1
+                    i += 2
+                    continue
+            out.append(s)
+            i += 1
+        return out
+
+    def generic_visit(self, node):
+        super().generic_visit(node)
+        for fld in ("body", "orelse", "finalbody"):
+            b = getattr(node, fld, None)
+            if isinstance(b, list) and b and isinstance(b[0], ast.stmt):
+                setattr(node, fld, self._block(b))
+        return node
+
+
+def default_then_override(tree: ast.Module) -> int:
+    d = DefaultThenOverride()
+    d.visit(tree)
+    if d.count:
+        ast.fix_missing_locations(tree)
+    return d.count
